@@ -354,12 +354,20 @@ func runC06(c *Ctx) *Replay {
 	errName := []string{"eof", "eof", "unexpected-eof"}[c.R.Intn(3)]
 	for _, k := range cuts {
 		ek := elemKindAt(spans, k)
-		for vi, variant := range []string{"unmarshal", "decode", "decode-chunked", "makefrombytes", "reuse"} {
+		for vi, variant := range []string{"unmarshal", "decode", "decode-chunked", "makefrombytes", "reuse", "sparecap"} {
 			if vi == 3 && k%7 != 0 {
+				continue
+			}
+			if vi == 5 && k%3 != 0 {
 				continue
 			}
 			sc := Scenario{Kind: "truncate", Prog: b.Prog.ID, Mask: b.Mask, PeerMask: peerMask, OldPeer: oldPeer, Type: pk.Type, Value: &v, Cut: k, Decoder: variant}
 			switch variant {
+			case "sparecap":
+				// the prefix is a short VIEW of a buffer that holds the whole encoding: what
+				// lies beyond len() is not input
+				sc.SpareCap = true
+				sc.Decoder = "unmarshal"
 			case "reuse":
 				// the receiver is not fresh: the COMPLETE encoding was decoded into it before
 				// (a receive loop that keeps one record value); byte and stream path in turn
@@ -528,7 +536,11 @@ func execTruncate(n *Node, sc *Scenario) *Violation {
 		// to the length of the complete encoding
 		do = n.decode(rb, sc.Type, sc.Decoder, data, sc.Sched, rf, sc.Reader, k)
 	} else {
+		if sc.SpareCap {
+			n.spareTail = data[k:]
+		}
 		do = n.decode(rb, sc.Type, sc.Decoder, data[:k], nil, nil, "", k)
+		n.spareTail = nil
 	}
 	if do.NoSuch {
 		note(sc, "skipped", "decoder not generated")
